@@ -83,16 +83,12 @@ func writeFile(name string, data []byte, perm os.FileMode) (err error) {
 
 	tmp, err := os.CreateTemp(filepath.Dir(name), "."+filepath.Base(name)+".tmp*")
 	if err != nil {
-		// report the output file, not the random name of the temporary one
-		var pathErr *fs.PathError
-		if errors.As(err, &pathErr) {
-			return &fs.PathError{Op: "open", Path: name, Err: pathErr.Err}
-		}
-		return err
+		return outputFileErr(err, name)
 	}
 	defer func() {
 		if err != nil {
 			_ = os.Remove(tmp.Name())
+			err = outputFileErr(err, name)
 		}
 	}()
 
@@ -108,4 +104,18 @@ func writeFile(name string, data []byte, perm os.FileMode) (err error) {
 		return err
 	}
 	return os.Rename(tmp.Name(), name)
+}
+
+// outputFileErr makes an error of an operation on the temporary file refer to the output file,
+// the random name of the temporary file must not leak to the report.
+func outputFileErr(err error, name string) error {
+	var pathErr *fs.PathError
+	if errors.As(err, &pathErr) {
+		return &fs.PathError{Op: pathErr.Op, Path: name, Err: pathErr.Err}
+	}
+	var linkErr *os.LinkError
+	if errors.As(err, &linkErr) {
+		return &fs.PathError{Op: linkErr.Op, Path: name, Err: linkErr.Err}
+	}
+	return err
 }
